@@ -183,3 +183,41 @@ pub fn observe_split(r: Result<Option<SplitState>, (usize, StackError)>, expect_
         }
     }
 }
+
+/// The THIRD value stack of `PushState` (floats), which the enumerated call sequences leave alone: values and a
+/// named input supplied through the builder are in the built state bit for bit - NaN, signed zeros, infinities
+/// and a subnormal included - whatever the order of the calls; the maximum is the one set last.
+pub fn float_fidelity() -> Vec<Value> {
+    let vals = [f64::NAN, -0.0, 0.0, 1.5, f64::INFINITY, f64::NEG_INFINITY, f64::MAX, f64::MIN_POSITIVE / 2.0, -2.25];
+    let bits = |s: &Stack<OrderedFloat<f64>>| -> Vec<String> { top_first(s).iter().map(|f| format!("{:016x}", f.0.to_bits())).collect() };
+    let mut out = Vec::new();
+    for (k, v) in vals.iter().enumerate() {
+        let others = [vals[(k + 1) % vals.len()], *v, vals[(k + 4) % vals.len()]];
+        let want_vals: Vec<String> = others.iter().map(|f| format!("{:016x}", f.to_bits())).collect();
+        let want = json!({"values_top_first": want_vals, "input": format!("{:016x}", v.to_bits()), "max": 4 + k, "int_input": 3});
+        for order in 0..2 {
+            let r = std::panic::catch_unwind(|| {
+                let st = if order == 0 {
+                    PushState::builder().with_max_stack_size(9).with_float_max_size(4 + k)
+                        .with_float_values(others.map(OrderedFloat)).expect("three values fit")
+                        .with_no_program().with_instruction_step_limit(10)
+                        .with_float_input("f", OrderedFloat(*v)).with_int_input("i", 3).build()
+                } else {
+                    PushState::builder().with_int_input("i", 3).with_float_input("f", OrderedFloat(*v))
+                        .with_max_stack_size(4 + k)
+                        .with_float_values(others.map(OrderedFloat)).expect("three values fit")
+                        .with_instruction_step_limit(10).with_no_program().build()
+                };
+                let values = bits(st.stack::<OrderedFloat<f64>>());
+                let max = st.stack::<OrderedFloat<f64>>().max_stack_size();
+                let after = st.clone().with_input(&VariableName::from("f")).ok().map(|a| bits(a.stack::<OrderedFloat<f64>>()));
+                let input = after.and_then(|b| if b.len() == values.len() + 1 { b.first().cloned() } else { None });
+                let int_input = st.with_input(&VariableName::from("i")).ok().and_then(|a| a.stack::<i64>().top().ok().copied());
+                json!({"values_top_first": values, "input": input, "max": max, "int_input": int_input})
+            });
+            let obs = r.unwrap_or_else(|_| json!({"panic": true}));
+            out.push(json!({"id": format!("F{k}.{order}"), "value": format!("{v:?}"), "obs": obs, "want": want}));
+        }
+    }
+    out
+}
